@@ -10,6 +10,7 @@ from collections import Counter
 
 import vlib
 import clirun
+import faults
 from clirun import CLI
 from vlib import log, write_replay
 
@@ -273,6 +274,13 @@ def tree_disagree(cases):
                                                                and (has(c, TREE, "stopped") or not has(c, TREE, "returned")))]
 
 
+ROOMS_AGREE_WHAT = "correspondence CorrRooms.check_rooms: RoomsModel.possible / kind_names and io/rooms.rs give different listings"
+
+
+def rooms_disagree(cases):
+    return [c for c in cases if c["stream"] == "rooms" and (c["code"] & 4) and (c["code"] & 9) != 9]
+
+
 def hist_codes(cases, table):
     h = Counter()
     for c in cases:
@@ -306,7 +314,7 @@ def generic_run(ctx, search, streams_fn, spec_fn, explanation_rule, known_fn=Non
         ev, ek = extra_fn(ctx, cases)
         extra_viol += ev
         known += ek
-    dis = node_disagree(cases) + solve_disagree(cases) + tree_disagree(cases)
+    dis = node_disagree(cases) + solve_disagree(cases) + tree_disagree(cases) + rooms_disagree(cases)
     if (dis or search) and not bad and not extra_viol:
         # search stage: more inputs with another seed
         s2, c2 = streams_fn(ctx, 3 * scale, 1000)
@@ -318,13 +326,13 @@ def generic_run(ctx, search, streams_fn, spec_fn, explanation_rule, known_fn=Non
             ev, ek = extra_fn(ctx, c2)
             extra_viol += ev
             known += ek
-        dis += node_disagree(c2) + solve_disagree(c2) + tree_disagree(c2)
+        dis += node_disagree(c2) + solve_disagree(c2) + tree_disagree(c2) + rooms_disagree(c2)
         cases += c2
     for w in sorted({c["why"] for c in bad}):
         viol += report_failing(ctx, [c for c in bad if c["why"] == w], w, limit=2)
     viol += extra_viol
     if dis and not viol:
-        for stream, what in (("node", NODE_AGREE_WHAT), ("solve", SOLVE_AGREE_WHAT), ("tree", TREE_AGREE_WHAT)):
+        for stream, what in (("node", NODE_AGREE_WHAT), ("solve", SOLVE_AGREE_WHAT), ("tree", TREE_AGREE_WHAT), ("rooms", ROOMS_AGREE_WHAT)):
             d = [c for c in dis if c["stream"] == stream]
             if d:
                 viol += report_disagree(ctx, d, what)
@@ -722,6 +730,82 @@ def streams_c17(ctx, scale, off):
     return [s1, s2], c1 + c2
 
 
+# ---- C15 / C16: malformed input and output faults on the real binary
+
+def exit_checks(ctx, scen_fn, pid, what_table):
+    binpath = vlib.build_cli()
+    vlib.build_harness()
+    sc = scen_fn(ctx, binpath)
+    recs = faults.run_scenarios(ctx, binpath, sc)
+    recs = faults.eval_exit_cases(ctx, recs)
+    viol = []
+    stats = Counter()
+    disagree = []
+    for r in recs:
+        stats["runs"] += 1
+        stats["exit_%s" % r["exit"]] += 1
+        stats["class:" + r["label"].split(":")[0]] += 1
+        w = None
+        if r["exit"] in (1000, 1001) or r["panicked"] or r["exit"] == 101 or r["exit"] >= 128:
+            w = what_table["crash"] % (r["exit"], r["stderr"][-200:].replace("\n", " "))
+        elif r["flags"] is None:
+            w = what_table["crash"] % ("library panic in probe", str(r["probe"])[:200])
+        elif "code" in r:
+            c = r["code"]
+            if not c & faults.EXIT["c16"]:
+                w = what_table["c16"]
+            elif not c & faults.EXIT["c15"]:
+                w = what_table["c15"] % r["exit"]
+            elif not c & faults.EXIT["nofile"]:
+                w = what_table["nofile"]
+            elif not c & faults.EXIT["same"]:
+                disagree.append(r)
+        elif r["file_exists"] and r["exit"] != 0:
+            w = what_table["nofile"]
+        if w:
+            rp = ctx.replay({"kind": "failing-input", "stream": "exit", "what": w, "case": {k: r[k] for k in ("label", "args", "flags", "probe", "exit", "stderr", "file_ok")}})
+            viol.append((w + " [" + r["label"] + "]", rp, False))
+    if disagree and not viol:
+        r = disagree[0]
+        rp = ctx.replay({"kind": "no-failing-input-found", "stream": "exit", "broken": "correspondence CorrExit.check_exit: exit status of the binary differs "
+                         "from Cli.exit_code on the stage results", "first_disagreeing_case": {k: r[k] for k in ("label", "args", "flags", "probe", "exit", "stderr")},
+                         "disagreements": len(disagree)})
+        viol.append(("exit status differs from the model Cli.exit_code (%d runs), e.g. %s: exit %s" % (len(disagree), r["label"], r["exit"]), rp, True))
+    ctx.extra_cov = {"cli_runs": dict(stats)}
+    return viol[:5], []
+
+
+def c15_extra(ctx, cases):
+    n = 160 if ctx.tier == "quick" else 1500
+    return exit_checks(ctx, lambda c, b: faults.scenarios_c15(c, b, n), "C15", {
+        "crash": "C15: the program panics / aborts / hangs on malformed input (exit %s; %s)",
+        "c16": "C15/C16: exit status 0 without a complete output file",
+        "c15": "C15: malformed input is not refused with a data/usage error status (exit %s)",
+        "nofile": "C15: an output file exists although the input was refused"})
+
+
+def c16_extra(ctx, cases):
+    return exit_checks(ctx, faults.scenarios_c16, "C16", {
+        "crash": "C16: the program panics / aborts / hangs (exit %s; %s)",
+        "c16": "C16: exit status 0 although the requested output file was not written completely (missing, truncated or not JSON of the format)",
+        "c15": "C16: unexpected refusal status %s on a well-formed run",
+        "nofile": "C16: a well-formed output file is reported for a run whose output stage failed"})
+
+
+def spec_c18(c):
+    if c["stream"] == "rooms" and (c["code"] & 4) and not (c["code"] & 2):
+        return "C18: a listed room size is not usable (too small / no complete allocation) or a course that takes place is offered no room " \
+               "(listing_okb evaluated in Coq on the implementation's lists)"
+    if c["stream"] == "rooms" and (c["code"] & 4) and not (c["code"] & 16):
+        return "C18: a listed room kind has quantity 0 or a capacity that is not listed for the course"
+    return None
+
+
+def streams_c18(ctx, scale, off):
+    s1, c1 = run_stream(ctx, "rooms", ["--seed", ctx.seed + off, "--count", 500 * scale, "--shards", 8], "rooms", "rooms")
+    return [s1], c1
+
+
 def spec_none(c):
     return None
 
@@ -767,6 +851,38 @@ RULE_TREE = "seeded synthetic subproblem trees (1-12 nodes, chains and bushy, al
             "wake-ups, exhaustive DFS over all schedules of trees <= 4 nodes with 2 workers; non-trivial = distinct (tree, schedule) accepted"
 
 REGISTRY = {
+
+    "C15": dict(mk(spec_none, streams_none, "single-field corruptions (delete / null / wrong type / negative / out-of-range index / float / list / object) of "
+                   "a valid simple-format document and of the two CdE export fixtures, truncated and garbage bytes, empty file, schema versions "
+                   "outside the window, unknown / missing / non-numeric track, rooms strings and rooms files (unparsable, wrong types, missing), both room "
+                   "options, --num-threads 0 / -1 / x, missing input, no arguments; stage results predicted by construction or by the library probe",
+                   extra_fn=c15_extra), allow_axioms=(),
+        explanation="C15_refused (Cli.malformed_refused): for every combination of stage results that is not a well-formed run the exit status is "
+                    "one of 2/64/65/66 and the output stage is never reached; C15_consistency_gate: inconsistent data is a refusal.  The real "
+                    "binary (debug build) is run on the malformed stream; exit status compared in Coq with Cli.exit_code on the stage results "
+                    "observed through the library; any panic/abort/hang or an output file after a refusal is a violation.",
+        trusted_base=["modelled: the decision skeleton of main.rs only; serde_json / clap parsing are trusted libraries returning Ok/Err; the CdE "
+                      "reader's totality on generic JSON is exercised (not proved) by the corruption stream; memory exhaustion for absurd sizes "
+                      "(num_max ~ 10^6 and more) is a resource limit outside the claim"],
+        assumptions=["'malformed' = some stage returns Err, as observed through the same library functions main.rs calls"]),
+    "C16": dict(mk(spec_none, streams_none, "output faults on the real binary: missing directory (ENOENT), path below a regular file (ENOTDIR), path is a "
+                   "directory (EISDIR), 5000-character name (ENAMETOOLONG), /dev/full (ENOSPC on write), an existing longer file at the path; both "
+                   "formats (simple, CdE small and large), with and without --print", extra_fn=c16_extra), allow_axioms=(),
+        explanation="C16_exit0_written / C16_failure_nonzero (Cli.exit0_output_written, output_failure_nonzero): status 0 with a requested output "
+                    "implies create and write succeeded, for all stage results.  Fault enumeration on the real binary; the file is parsed back.",
+        trusted_base=["modelled: main.rs decision skeleton; what the kernel does after write() returned (delayed allocation, errors at close) is outside "
+                      "the claim; EACCES not exercised (the sandbox runs as root)"],
+        assumptions=["a write failure is reported by the writer's Result (serde_json::to_writer on an unbuffered File)"]),
+    "C18": dict(mk(spec_c18, streams_c18, "seeded assignments (ties among sizes, empty and fixed courses, factors/offsets), room lists housed by construction "
+                   "or arbitrary, fewer/more rooms than courses, duplicate capacities, room-kind files with split capacities and quantity-0 kinds; "
+                   "non-trivial = distinct room-feasible cases"), allow_axioms=tuple(sorted(vlib.FLOCQ_AXIOMS)),
+        explanation="C18 (every listed size is at least the course's size and is its room in an injective allocation that houses every course of "
+                    "positive size), C18_nonempty, C18_kinds (listed kinds have positive quantity and a listed capacity; repaired by fix 3ff583c). "
+                    "Rank-level theorems independent of the unstable sort's tie order.  Implementation lists compared exactly with the model and "
+                    "checked by the executable predicate listing_okb.",
+        trusted_base=["modelled, not verified: src/io/rooms.rs; effective sizes via Flocq binary32 in the correspondence (theorems are about sizes as "
+                      "numbers and carry no axioms); string joining of names not modelled (ids are compared)"],
+        assumptions=["'takes place' = effective size >= 1"]),
 
     "C02": dict(mk(spec_c02, streams_c02, RULE_NS + "; no room lists; exact optimum by exhaustive search in the harness (<= 5 courses, <= 7 "
                    "participants), its witness assignment certified in Coq (hard_okb, score_of)", known_fn=known_c02), allow_axioms=(),
